@@ -794,6 +794,14 @@ func (env *Env) trCall(e *E) Val {
 			return Val{S: "true", Sort: "Bool"}
 		}
 		return Val{S: fmt.Sprintf("(forall ((fr Int)) (! (=> (<= fr %s) (= (select %s fr) (select %s fr))) :pattern ((select %s fr))))", a0, cur, init, cur), Sort: "Bool"}
+	case "oldObjectsUnchangedExcept": // every byte array other than x's is unchanged since the pre-state
+		x := arg(0)
+		c := m.compSliceHeap("Int")
+		cur := env.heap(c)
+		n := *env
+		n.st = env.old
+		init := n.heap(c)
+		return Val{S: fmt.Sprintf("(forall ((fr Int)) (! (=> (not (= fr %s)) (= (select %s fr) (select %s fr))) :pattern ((select %s fr))))", slRef(x.S), cur, init, cur), Sort: "Bool"}
 	case "mapdom": // mapdom(m, k): key present
 		x, k := arg(0), arg(1)
 		if mp, ok := x.G.Underlying().(*types.Map); ok {
